@@ -98,8 +98,8 @@ func (iv invocation) flags() []flagSpec {
 		// whatever it does must not depend on chance
 		f = append(f, flagSpec{name: "set"}, flagSpec{name: "mset"})
 	}
-	if iv.format != "jd" {
-		f = append(f, flagSpec{"f", iv.format, true, false})
+	if iv.format != "jd" || iv.keyStyle == 3 {
+		f = append(f, flagSpec{"f", iv.format, true, false}) // "-f jd" may also be spelled out
 	}
 	if iv.precision != 0 {
 		f = append(f, flagSpec{"precision", strconv.FormatFloat(iv.precision, 'g', -1, 64), true, false})
@@ -476,7 +476,10 @@ func genMisuse(c *Chooser, iv invocation, s *Session, an, bn string) ProcSpec {
 	fl := iv.flags()
 	pos := []string{an, bn}
 	p := ProcSpec{Bin: iv.bin}
-	switch c.Int(16) {
+	switch c.Int(17) {
+	case 16: // a complete document followed by more data is not a document
+		tails := []string{" }", "\n" + string(s.Files[1].Data), " 1", ",", "x"}
+		s.Files[0].Data = append(append(Blob(nil), s.Files[0].Data...), []byte(tails[c.Int(len(tails))])...)
 	case 15: // both inputs are the same unparsable bytes
 		d := s.Files[0].Data
 		if len(d) > 1 {
